@@ -758,9 +758,9 @@ V("C13", "plain-summary-missing-shows-bad", "F", "R11", R + "lint.py", '_("Missi
 V("C13", "plain-summary-deprecated-shows-unused", "F", "R11", R + "lint.py", '_("Deprecated licenses:"): ", ".join(report.deprecated_licenses),', '_("Deprecated licenses:"): ", ".join(report.unused_licenses),')
 V("C12", "continue-one-past-end-marker-in-rest", "F", "R2", R + "extract.py", "filter_ignore_block(rest[ignore_end:])", "filter_ignore_block(rest[ignore_end + 1 :])")
 V("C12", "continue-at-start-offset-in-rest", "F", "R2", R + "extract.py", "filter_ignore_block(rest[ignore_end:])", "filter_ignore_block(rest[ignore_start:])")
-# round 15 (held out): twenty more behaviour-preserving refactorings, written AFTER the corrections of round 14 by sub-agents
-# that again saw only a property's text; first contact: 14 of 20 without a violation.  Same expectation: never a violation.
-for _c in ("C03", "C06", "C07", "C09", "C10", "C13", "C14", "C16", "C18", "C19"):
+# round 15 (held out): forty more behaviour-preserving refactorings in two batches, written AFTER the corrections of round 14 by
+# sub-agents that again saw only a property's text; first contact: 14 of 20, then 17 of 20 without a violation.  Same expectation: never a violation.
+for _c in ("C01", "C02", "C03", "C04", "C05", "C06", "C07", "C08", "C09", "C10", "C11", "C12", "C13", "C14", "C15", "C16", "C17", "C18", "C19", "C20"):
     for _k in (1, 2):
         for _j in range(1, 21):
             _p = f"C{_j:02d}"
